@@ -187,6 +187,9 @@ type Opts struct {
 	MinMods, MaxMods int
 	InitialBlocks    []uint64 // candidate initial blocks
 	AllowInvalidInit bool     // also produce modules with no input available at their initial block
+	// ParamsLikeNames: a params value is an arbitrary string of the user: it may happen to be the name of a
+	// module of the package (another one, or the module's own)
+	ParamsLikeNames bool
 	FilterKeys       []string // keys usable in block filter queries
 	StoreKinds       []sdsl.Kind
 }
@@ -270,10 +273,10 @@ func GenGraph(t *rapid.T, o Opts) Graph {
 		// inputs
 		paramsOnly := m.Kind != "index" && rapid.IntRange(0, 9).Draw(t, "paramsonly") == 0
 		if paramsOnly {
-			m.Inputs = []In{{T: "params", Value: rapid.SampledFrom([]string{"", "p", "k0 || k1"}).Draw(t, "pvalue")}}
+			m.Inputs = []In{{T: "params", Value: rapid.SampledFrom(pvalues(o, g, m.Name)).Draw(t, "pvalue")}}
 		} else {
 			if m.Kind != "index" && rapid.IntRange(0, 4).Draw(t, "hasparams") == 0 {
-				m.Inputs = append(m.Inputs, In{T: "params", Value: rapid.SampledFrom([]string{"", "p", "k0 || k1"}).Draw(t, "pvalue")})
+				m.Inputs = append(m.Inputs, In{T: "params", Value: rapid.SampledFrom(pvalues(o, g, m.Name)).Draw(t, "pvalue")})
 			}
 			nin := rapid.IntRange(1, 3).Draw(t, "nin")
 			used := map[string]bool{}
@@ -342,6 +345,17 @@ func GenGraph(t *rapid.T, o Opts) Graph {
 		}
 	}
 	return g
+}
+
+func pvalues(o Opts, g Graph, own string) []string {
+	out := []string{"", "p", "k0 || k1"}
+	if o.ParamsLikeNames {
+		out = append(out, "p", "p", own)
+		for _, m := range g.Mods {
+			out = append(out, m.Name)
+		}
+	}
+	return out
 }
 
 // InputAvailable is the harness' statement of "some input exists at the module's initial block":
